@@ -293,3 +293,147 @@ func VP_C04_maxsat_wcnf() {
 		check(res, "Optimal(ch)")
 	}
 }
+
+// VP_C20_stream_maxsat: maxsat Solver.Optimal with a results channel and a
+// concurrent consumer, under every schedule at channel operations.
+func VP_C20_stream_maxsat() {
+	n := zzvp.Param("n", 2)
+	m := zzvp.Choose("m", zzvp.Param("m", 2)) + 1
+	K := zzvp.Param("k", 2)
+	type cl struct {
+		lits []int
+		w    int
+	}
+	var cls []cl
+	var sb strings.Builder
+	fmt.Fprintf(&sb, "p wcnf %d %d\n", n, m)
+	for j := 0; j < m; j++ {
+		k := zzvp.Choose("k", K) + 1
+		c := cl{w: zzvp.Concretize(zzvp.Int("w", 1, zzvp.Param("W", 2)))}
+		fmt.Fprintf(&sb, "%d", c.w)
+		for i := 0; i < k; i++ {
+			l := zzvp.Int("l", -n, n)
+			zzvp.Assume(l != 0)
+			l = zzvp.Concretize(l)
+			c.lits = append(c.lits, l)
+			fmt.Fprintf(&sb, " %d", l)
+		}
+		sb.WriteString(" 0\n")
+		cls = append(cls, c)
+	}
+	s, err := ParseWCNF(strings.NewReader(sb.String()))
+	if err != nil {
+		zzvp.Assert(false, "ParseWCNF failed")
+		return
+	}
+	capacity := zzvp.Choose("capacity", zzvp.Param("maxcap", 1)+1)
+	results := make(chan solver.Result, capacity)
+	done := make(chan solver.Result, 1)
+	zzvp.Preemptions(zzvp.Param("preempt", -1))
+	zzvp.Schedule(zzvp.Param("schedule", 1))
+	go func() {
+		done <- s.Optimal(results, nil)
+	}()
+	var got []solver.Result
+	for r := range results {
+		got = append(got, r)
+		if len(got) > 32 {
+			zzvp.Assert(false, "unbounded stream")
+			return
+		}
+	}
+	ret := <-done
+	zzvp.Schedule(0)
+	_, ok := <-results
+	zzvp.Assert(!ok, "result channel not closed")
+	costOf := func(model []bool) int {
+		cost := 0
+		for _, c := range cls {
+			sat := false
+			for _, l := range c.lits {
+				v := l
+				if v < 0 {
+					v = -v
+				}
+				if model[v-1] == (l > 0) {
+					sat = true
+				}
+			}
+			if !sat {
+				cost += c.w
+			}
+		}
+		return cost
+	}
+	min := vpInf
+	for a := 0; a < 1<<uint(n); a++ {
+		model := make([]bool, n)
+		for v := 0; v < n; v++ {
+			model[v] = (a>>uint(v))&1 == 1
+		}
+		if c := costOf(model); c < min {
+			min = c
+		}
+	}
+	zzvp.Assert(len(got) >= 1, "no result delivered")
+	prev := vpInf
+	for _, r := range got {
+		zzvp.Assert(r.Status == solver.Sat, "a delivered result is not Sat")
+		zzvp.Assert(len(r.Model) == n, "a forwarded model does not have the user's variable count")
+		if len(r.Model) != n {
+			return
+		}
+		zzvp.Assert(r.Weight == costOf(r.Model), "a delivered result announces a cost that is not the cost of its model")
+		zzvp.Assert(r.Weight < prev, "costs do not strictly decrease along the stream")
+		prev = r.Weight
+	}
+	last := got[len(got)-1]
+	zzvp.Assert(ret.Weight == last.Weight && ret.Status == last.Status, "the returned result differs from the last delivered one")
+	zzvp.Assert(ret.Weight == min, "the final cost is not the optimum")
+	zzvp.Reach("stream")
+}
+
+// VP_C16_maxsat: two independent MaxSAT uses on two goroutines (constraint API
+// and WCNF with a result channel, which starts a goroutine internally) under
+// the happens-before monitor.
+func VP_C16_maxsat() {
+	use := func(k int) int {
+		switch k {
+		case 0:
+			pb := New(SoftClause(Var("a"), Var("b")), SoftClause(Not("a")), HardClause(Not("b")))
+			_, c := pb.Solve()
+			return c
+		case 1:
+			pb := New(WeightedClause([]Lit{Var("a")}, 2), WeightedClause([]Lit{Not("a")}, 1), SoftPBConstr([]Lit{Var("a"), Var("b")}, []int{1, 2}, 3))
+			_, c := pb.Solve()
+			return c
+		default:
+			s, err := ParseWCNF(strings.NewReader("p wcnf 2 3\n1 1 2 0\n2 -1 0\n1 -2 0\n"))
+			if err != nil {
+				return -2
+			}
+			ch := make(chan solver.Result, 1)
+			done := make(chan solver.Result, 1)
+			go func() { done <- s.Optimal(ch, nil) }()
+			for range ch {
+			}
+			r := <-done
+			return r.Weight
+		}
+	}
+	k1 := zzvp.Choose("u1", 3)
+	k2 := zzvp.Choose("u2", 3)
+	w1, w2 := use(k1), use(k2)
+	zzvp.RaceDetect(true)
+	zzvp.Preemptions(0)
+	zzvp.Schedule(1)
+	c1 := make(chan int, 1)
+	c2 := make(chan int, 1)
+	go func() { c1 <- use(k1) }()
+	go func() { c2 <- use(k2) }()
+	r1, r2 := <-c1, <-c2
+	zzvp.Schedule(0)
+	zzvp.RaceDetect(false)
+	zzvp.Assert(r1 == w1 && r2 == w2, "a MaxSAT use run concurrently with another returned something else than when run alone")
+	zzvp.Reach("two-uses")
+}
